@@ -348,6 +348,11 @@ def check(tier: str) -> int:
     prof = sgen.Profile(yield_=5, ckif=5, shieldck=4, cancel=3.5, newscope=4, shield_prob=0.35, setshield=1.5, sleep=1,
                         gnew=1, spawn=1.5, deadline_prob=0.1)
     runs = []
+    import json as _json
+    for _f in sorted((core.VERIF / "corpus" / "C08").glob("*.json")):
+        _c = _json.loads(_f.read_text())
+        if "ops" in _c and not _c.get("real_only"):
+            runs.append(sgen.replay(_c["ops"], tolerant=True))       # regression histories of the S part
     n_random = 150 if tier == "quick" else 2500
     for _ in range(n_random):
         try:
